@@ -69,6 +69,25 @@ Definition update_client (now : Z) (ip : option N) (duid : bytes) (ttl : Z) (x :
     (ok3, with_store x s3)
   end.
 
+(* HoldClient: like UpdateClient, but a binding of this very client that outlasts now+ttl is kept *)
+Definition hold_client (now : Z) (ip : option N) (duid : bytes) (ttl : Z) (x : ipdb) : bool * ipdb :=
+  match to_uip x ip with
+  | None => (false, x)
+  | Some n =>
+    let '(r1, r2, s') := lookup now n duid (st x) in
+    let x' := with_store x s' in
+    match r1, r2 with
+    | Some p, Some q =>
+      if Nat.eqb p q then
+        match nth_error (heap s') p with
+        | Some e => if (now + ttl <? e_until e)%Z then (true, x') else update_client now ip duid ttl x'
+        | None => update_client now ip duid ttl x'
+        end
+      else update_client now ip duid ttl x'
+    | _, _ => update_client now ip duid ttl x'
+    end
+  end.
+
 (* Uip.Valid *)
 Definition uip_valid (n : N) : bool := negb (n mod 256 =? 0) && negb (n mod 256 =? 255).
 
@@ -110,4 +129,13 @@ Definition find_ip (perm : list N) (cancelled : nat -> bool) (probe : N -> bool 
                  | Some _ => perm end in
     let '(r, s2, t) := search cands 0 cancelled probe now x s1 in
     (r, with_store x s2, t)
+  end.
+
+(* OfferIP: FindIP and HoldClient under one lock (the hold happens at the clock reading after the search) *)
+Definition offer_ip (perm : list N) (cancelled : nat -> bool) (probe : N -> bool * Z) (now : Z)
+                    (sugg : option N) (duid : bytes) (ttl : Z) (x : ipdb) : option N * ipdb * Z :=
+  let '(r, x1, t1) := find_ip perm cancelled probe now sugg duid x in
+  match r with
+  | None => (None, x1, t1)
+  | Some a => let (ok, x2) := hold_client t1 (Some a) duid ttl x1 in ((if ok then Some a else None), x2, t1)
   end.
